@@ -470,12 +470,31 @@ def enc_lookup(chk, program, rule='ENC-NAME'):
     cls = program.cls('encoder', 'NMEA2000Encoder')
     methods = {n.name: n for n in cls.body if isinstance(n, (ast.FunctionDef, ast.AsyncFunctionDef))}
     funcs = {q: f for q, f in program.mod('encoder').defs.items() if '.' not in q}
+    # names bound to the generated module itself (from . import pgns as P / import nmea2000.pgns as P): its attributes are the same function table
+    pg_alias = set()
+    for n_ in program.mod('encoder').tree.body:
+        if isinstance(n_, ast.ImportFrom) and n_.module in (None, 'nmea2000') and n_.level <= 1:
+            pg_alias |= {a.asname or a.name for a in n_.names if a.name == 'pgns'}
+        if isinstance(n_, ast.Import):
+            pg_alias |= {a.asname for a in n_.names if a.name.endswith('.pgns') and a.asname}
     def run(pgn, mid):
         calls = []
         def hook(it, call, env):
             f = call.func
             if isinstance(f, ast.Name) and f.id == 'globals' and not call.args:
                 return table
+            if isinstance(f, ast.Name) and f.id == 'vars' and len(call.args) == 1 and isinstance(call.args[0], ast.Name) and call.args[0].id in pg_alias and call.args[0].id not in env:
+                return table
+            if isinstance(f, ast.Name) and f.id == 'getattr' and len(call.args) in (2, 3) and isinstance(call.args[0], ast.Name) and call.args[0].id in pg_alias and call.args[0].id not in env:
+                key = it.expr(call.args[1], env)
+                k_ = key.literal() if isinstance(key, A.AStr) else None
+                if k_ is None:
+                    raise A.Unknown('attribute name of the generated module is not a literal string')
+                if k_ in table.items:
+                    return table.items[k_]
+                if len(call.args) == 3:
+                    return it.expr(call.args[2], env)
+                raise A.PyError('AttributeError', call.lineno)
             if isinstance(f, ast.Name) and isinstance(env.get(f.id), A.AObj) and 'generated_function' in env[f.id].attrs:
                 args = [it.expr(a, env) for a in call.args]
                 calls.append((env[f.id].attrs['generated_function'], args))
@@ -709,8 +728,16 @@ def enc_state(chk, program, rule='ENC-STATE'):
     allowed = {'NMEA2000Encoder.__init__': {'sequence_counter'}, 'NMEA2000Encoder._encode_fast_message': {'sequence_counter'}}
     methods = {'_call_encode_function', '_encode_fast_message', '_build_header', '_encode', 'encode_ebyte', 'encode_usb', 'encode_actisense', 'encode_yacht_devices', 'bytes_to_hex_string'}
     n = 0
+    # every use of self.<attr> in the class, classified: 'read', 'write' (rebinding, item store, mutating method), or 'other' (a use whose
+    # effect on the object cannot be read off the syntax: handed to a call, a method that is neither a known reader nor a known mutator,
+    # an attribute of the object assigned).  An attribute bound in __init__ and only read afterwards is configuration, not state.
+    READERS = {'get', 'items', 'keys', 'values', 'index', 'count', 'copy', 'hex', 'startswith', 'endswith', 'format', 'join', 'to_bytes', 'bit_length'}
+    MUTATORS = {'setdefault', 'update', 'append', 'pop', 'clear', 'add', 'insert', 'extend', 'remove', 'popitem', 'discard', '__setitem__', 'move_to_end', 'appendleft', 'popleft'}
+    uses = {}
+    cdef = program.cls('encoder', 'NMEA2000Encoder')
+    props = {f.name for f in cdef.body if isinstance(f, (ast.FunctionDef, ast.AsyncFunctionDef)) and f.decorator_list}
     for q, fn in m.defs.items():
-        if not q.startswith('NMEA2000Encoder.'):
+        if not q.startswith('NMEA2000Encoder.') or q.count('.') != 1:
             continue
         for node in ast.walk(fn):
             if isinstance(node, ast.Attribute) and isinstance(node.value, ast.Name) and node.value.id == 'self':
@@ -719,10 +746,55 @@ def enc_state(chk, program, rule='ENC-STATE'):
                 if is_call and (node.attr in methods or f"NMEA2000Encoder.{node.attr}" in m.defs):
                     continue
                 n += 1
-                ok = node.attr in allowed.get(q, set())
-                chk.check(ok, rule, f"{q}::self.{node.attr}", file=E, line=node.lineno, func=q,
-                          expected='no instance state besides the sequence counter of _encode_fast_message', found=f"self.{node.attr} {'written' if isinstance(node.ctx, ast.Store) else 'read'} in {q}",
-                          detail='' if ok else 'state kept between messages (a cache of encode functions or identifiers) makes the bytes of one message depend on the messages encoded before it')
+                if isinstance(node.ctx, (ast.Store, ast.Del)):
+                    how = 'write'
+                elif isinstance(par, ast.AugAssign) and par.target is node:
+                    how = 'write'
+                elif isinstance(par, ast.Subscript) and par.value is node:
+                    how = 'write' if isinstance(par.ctx, (ast.Store, ast.Del)) else 'read'
+                elif isinstance(par, ast.Attribute) and par.value is node:
+                    gp = getattr(par, '_parent', None)
+                    if isinstance(par.ctx, (ast.Store, ast.Del)):
+                        how = 'other'
+                    elif isinstance(gp, ast.Call) and gp.func is par:
+                        how = 'read' if par.attr in READERS else ('write' if par.attr in MUTATORS else 'other')
+                    else:
+                        how = 'read'
+                elif isinstance(par, ast.Call) and (node in par.args or any(k.value is node for k in par.keywords)):
+                    f_ = par.func
+                    how = 'read' if isinstance(f_, ast.Name) and f_.id in ('len', 'bool', 'int', 'str', 'bytes', 'hasattr', 'getattr', 'isinstance', 'sorted', 'list', 'tuple', 'min', 'max', 'sum', 'repr', 'format', 'range') else 'other'
+                else:
+                    how = 'read'
+                if node.attr in props and f"NMEA2000Encoder.{node.attr}" in m.defs:
+                    how = 'other'      # a property / decorated member of the class: what the access does is that member's body
+                uses.setdefault(node.attr, []).append((q, how, node))
+    for attr, us in sorted(uses.items()):
+        after = [(q, how, node) for q, how, node in us if q != 'NMEA2000Encoder.__init__']
+        if attr == 'sequence_counter' and 'sequence_counter' not in props:
+            for q, how, node in us:
+                ok = attr in allowed.get(q, set())
+                if ok or how == 'write':
+                    chk.check(ok, rule, f"{q}::self.{attr}", file=E, line=node.lineno, func=q,
+                              expected='the sequence counter is written only by __init__ and _encode_fast_message', found=f"self.{attr} {how} in {q}",
+                              detail='' if ok else 'the sequence number of a fast-packet message would depend on what else was encoded')
+                else:
+                    chk.unknown(rule, f"{q}::self.{attr}", f"the sequence counter is read in {q}: whether the bytes depend on it there is not decided by this rule", E, node.lineno)
+            continue
+        writes = [u for u in after if u[1] == 'write']
+        reads = [u for u in after if u[1] == 'read']
+        other = [u for u in after if u[1] == 'other']
+        if writes and (reads or other or any(isinstance(getattr(u[2], '_parent', None), (ast.AugAssign, ast.Subscript, ast.Attribute)) for u in writes)):
+            q, how, node = writes[0]
+            chk.check(False, rule, f"{q}::self.{attr}", file=E, line=node.lineno, func=q,
+                      expected='no instance state besides the sequence counter of _encode_fast_message',
+                      found=f"self.{attr} written in {sorted({u[0] for u in writes})} and read in {sorted({u[0] for u in reads + other})}",
+                      detail='state kept between messages (a cache of encode functions or identifiers) makes the bytes of one message depend on the messages encoded before it')
+        elif other:
+            q, how, node = other[0]
+            chk.unknown(rule, f"{q}::self.{attr}", f"self.{attr} is used in a way whose effect on it is not visible here ({ast.unparse(getattr(node, '_parent', node))[:60]}): state or configuration not decided", E, node.lineno)
+        else:
+            for q, how, node in us:
+                chk.check(True, rule, f"{q}::self.{attr}", file=E, line=node.lineno, func=q, expected='configuration: bound in __init__, only read afterwards', found=how)
     # which function encodes a message depends on that message only: decided by interpretation for every definition (enc_lookup)
     enc_lookup(chk, program, rule)
     chk.unit('encoder_self_accesses', n)
